@@ -9,12 +9,12 @@ src=$(cd "$1" && pwd); sid=$2; prop=$3; pkg=$4; tname=$5; needs=$6; demo=${7:-de
 wt=/tmp/keepmut-$$
 git -C /repo worktree add --detach "$wt" HEAD -q || exit 3
 trap 'git -C /repo worktree remove --force "$wt" >/dev/null 2>&1' EXIT
-cp "$src/$demo" "$wt/$pkg/zz_demo_test.go"
+mkdir -p "$wt/$pkg"; cp "$src/$demo" "$wt/$pkg/zz_demo_test.go"
 ( cd "$wt" && go test -vet=off -count=1 -run "^$tname\$" "./$pkg" >/tmp/keep-$$.clean 2>&1 ); clean=$?
 rm "$wt/$pkg/zz_demo_test.go"
 git -C "$wt" apply "$src/patch.diff" || { echo "patch does not apply"; exit 3; }
 ( cd "$wt" && go build ./... && go test -vet=off -count=1 ./... >/tmp/keep-$$.suite 2>&1 ); suite=$?
-cp "$src/$demo" "$wt/$pkg/zz_demo_test.go"
+mkdir -p "$wt/$pkg"; cp "$src/$demo" "$wt/$pkg/zz_demo_test.go"
 ( cd "$wt" && go test -vet=off -count=1 -run "^$tname\$" "./$pkg" >/tmp/keep-$$.mut 2>&1 ); mut=$?
 rm "$wt/$pkg/zz_demo_test.go"
 echo "demo on clean tree: exit $clean; suite with patch: exit $suite; demo with patch: exit $mut"
